@@ -121,3 +121,19 @@ func countByte(s string, c byte) int {
 	}
 	return n
 }
+
+// openReal opens a handle over the database/sql boundary store.
+func openReal(d stubDialector, s *Store, cfg *gorm.Config) *gorm.DB {
+	if cfg == nil {
+		cfg = &gorm.Config{}
+	}
+	cfg.Logger = stubLogger{}
+	cfg.DisableAutomaticPing = true
+	cfg.NamingStrategy = stubNamer{}
+	cfg.ConnPool = OpenPool(s)
+	db, err := gorm.Open(d, cfg)
+	if err != nil {
+		panic("open: " + err.Error())
+	}
+	return db
+}
